@@ -1,7 +1,8 @@
 ----------------------------- MODULE Trace_C01 -----------------------------
 (* Validates complete transformations of the real processor (result tree recorded before any     *)
 (* serializer) against XSLTSem!Transform.                                                          *)
-(*   [e |-> "Transform", doc, ss (stylesheet AST), status, tree (canonical items)]                 *)
+(*   [e |-> "Transform", doc, aux (documents reachable through document()), ss (stylesheet AST),   *)
+(*    status, tree (canonical items)]                                                               *)
 EXTENDS XSLTSem, Json, IOUtils
 VARIABLES l, st, failed, done
 
@@ -15,12 +16,13 @@ LoadItems(s) ==
      ELSE s[j]]
 
 C01Step(s, ev) ==
-  LET r == Transform(ev.ss, <<Forest[ev.doc]>>)
+  LET FF == <<Forest[ev.doc]>> \o [j \in 1..Len(ev.aux) |-> Forest[ev.aux[j]]]      \* document 1 = the source, then the document() documents
+      r == Transform(ev.ss, FF)
       got == LoadItems(ev.tree)
   IN IF r.bad # "" THEN [ok |-> TRUE, st |-> s, drop |-> TRUE, msg |-> ""]
      ELSE LET ok == ev.status = 0 /\ r.items = got
               \* triage only: which named deviation (or combination) explains the recorded tree, if any
-              F1 == <<Forest[ev.doc]>>
+              F1 == FF
               is(d) == ev.status = 0 /\ TransformWith(ev.ss, F1, d).items = got
               tag == IF ok THEN ""
                      ELSE IF is([zeroAnyEmpty |-> TRUE]) THEN "KD:numberAnyZeroCountGivesEmpty "
